@@ -161,7 +161,7 @@ func (u *UnitsDefinition) FormatShortInt(data int64) string {
 	remainder := data
 	output := ""
 	for _, multiplier := range u.getSortedMultipliersCache() {
-		base := int64(math.Floor(float64(remainder) / float64(multiplier)))
+		base := floorDiv(remainder, multiplier)
 		remainder -= base * multiplier
 		output += formatNumberUnitShort(base, u.Multipliers()[multiplier], false)
 	}
@@ -193,7 +193,7 @@ func (u *UnitsDefinition) FormatLongInt(data int64) string {
 	remainder := data
 	output := ""
 	for _, multiplier := range u.getSortedMultipliersCache() {
-		base := int64(math.Floor(float64(remainder) / float64(multiplier)))
+		base := floorDiv(remainder, multiplier)
 		remainder -= base * multiplier
 		output += u.Multipliers()[multiplier].FormatLongInt(base, false)
 	}
@@ -215,6 +215,16 @@ func (u *UnitsDefinition) FormatLongFloat(data float64) string {
 	}
 	output += u.BaseUnit().FormatLongFloat(remainder, false)
 	return output
+}
+
+// floorDiv divides two integers rounding towards negative infinity without going through floating point,
+// which cannot represent integers above 2^53 exactly.
+func floorDiv(a int64, b int64) int64 {
+	quotient := a / b
+	if a%b != 0 && (a < 0) != (b < 0) {
+		quotient--
+	}
+	return quotient
 }
 
 func (u *UnitsDefinition) getSortedMultipliersCache() []int64 {
